@@ -12,11 +12,17 @@ Definition chas (k : Z) : bool := Z.odd k.
 Definition cmf (k : Z) : Z := 7 * k + 3.
 (** sort_fields: class k declares three fields whose `order` attributes put them in the
     (k mod 6)-th permutation; the harness encodes the list it got back as 100k + that index *)
-Definition csf (k : Z) : Z := 100 * k + k mod 6.
+Definition cstale (k : Z) : bool := (k =? 0) || (k =? 4).
+Definition csf (k : Z) : Z := 100 * k + k mod 6 + (if cstale k then 50 else 0).
+(** classes 0 and 4: the harness sorts them once at start-up and THEN appends a fourth field, so the
+    request threads find a list cached for a field table the class no longer has (identity 0; the
+    current flat type info has identity 1) *)
+Definition cftag (k : Z) : Z := 1.
+Definition csc0 (k : Z) : option (Z * Z) := if cstale k then Some (0, 100 * k + k mod 6) else None.
 
-Notation cstep := (step Z cbase cover1 cover2 chas cmf csf).
-Notation crun := (run Z cbase cover1 cover2 chas cmf csf).
-Notation cinit := (init Z cbase).
+Notation cstep := (step Z cbase cover1 cover2 chas cmf csf cftag).
+Notation crun := (run Z cbase cover1 cover2 chas cmf csf cftag).
+Notation cinit := (fun pre => init Z cbase pre csc0).
 Notation calone := (alone Z cbase cover1 cover2 chas cmf csf).
 
 Definition enc (o : option Z) : Z := match o with None => -1 | Some d => d end.
@@ -48,7 +54,7 @@ Definition event (v : variant) (reqs : Z -> req) (s : state Z) (t : Z) : Z * Z *
   | M_set => (20, k, cmf k)
   | M_relv | M_rel => (21, 0, 0)
   | M_get => (22, k, enc (memo s k))
-  | S_get => (23, k, enc (scache s k))
+  | S_get => (23, k, match scache s k with Some (_, x) => x | None => -1 end)
   | S_set => (24, k, csf k)
   | Done => (0, 0, 0)
   end.
